@@ -30,14 +30,29 @@ BINDINGS = [
     {"a": 5.0, "b": 0.5, "c": -3.0, "n": 2.5, "v": [1.5, -2.0, 4.0], "g": [[0.0, 4.25], [10.0, -5.75]]},
     {"a": 2.0, "b": 11.0, "c": 0.25, "n": 3.0, "v": [0.5, 6.0, 1.25], "g": [[0.0, 0.75], [10.0, 30.75]]},
 ]
+# every binding also binds: z = the literal zero, m = a negative literal, q = a literal with many decimal places
+for _b in BINDINGS:
+    _b.update({"z": 0.0, "m": -2.0, "q": 0.123456789012})
 
 
 def N():
     return ["num", "n"]     # bound per binding
 
 
+def Z():
+    return ["num", "z"]
+
+
+def M():
+    return ["num", "m"]
+
+
+def Q():
+    return ["num", "q"]
+
+
 def leaves():
-    return [A, B, C, G, N(), TIME, ASUM, APROD, AMEAN]
+    return [A, B, C, G, N(), TIME, ASUM, APROD, AMEAN, Z(), M(), Q()]
 
 
 def d1_all():
@@ -108,7 +123,7 @@ def wrap_all(inner_list, siblings):
 
 
 def d2():
-    out = wrap_all(reps(True), [C, N(), G, ASUM])
+    out = wrap_all(reps(True), [C, N(), G, ASUM, Z(), M()])
     r1, r2 = reps(False), reps2()
     for op in BINOPS:
         for x in r1:
@@ -125,7 +140,7 @@ def d3():
 def skeleton(n):
     k = n[0]
     if k == "num":
-        return "N"
+        return {"z": "0", "m": "NEG", "q": "LONG"}.get(n[1], "N") if isinstance(n[1], str) else "N"
     if k == "ref":
         return "G" if n[1] == "g" else "E"
     if k == "time":
@@ -321,6 +336,82 @@ def eval_tree(bench, tree0):
     return res, detail
 
 
+def shared_operand_cases():
+    """(inner representative, way of building a larger expression on top of the *same Python object*)"""
+    outer = []
+    for op in BINOPS:
+        outer.append(("bin-l", op))
+        outer.append(("bin-r", op))
+    for op in UNOPS:
+        outer.append(("un", op))
+    outer.append(("un-twice", "neg"))
+    outer.append(("if-cond", None))
+    outer.append(("round", None))
+    return [(r, o) for r in reps(True) for o in outer]
+
+
+def eval_shared(bench, inner0, how):
+    """A DSL expression object that is reused as an operand of a larger expression keeps its own meaning:
+    x1 := E ; build F(E) on the same object (and assign it to x2) ; x1 := E again -> x1 evaluates as before."""
+    inner = bind(inner0, bench.b)
+    try:
+        want = bench.ref(inner).value("x", 2)
+    except (refsd.RefUndefined, RecursionError):
+        return "undefined", None
+    try:
+        e = refsd.build_expr(bench.m, inner, bench.env)
+        if not hasattr(e, "term"):
+            return "undefined", None
+        kind, op = how
+        other = bench.env["c"]
+        import operator as _op
+        from BPTK_Py import sd_functions as sd
+        if kind in ("bin-l", "bin-r"):
+            a, b2 = (e, other) if kind == "bin-l" else (other, e)
+            if op in refsd.PYBIN:
+                f = refsd.PYBIN[op](a, b2)
+            else:
+                f = {"min": sd.min, "max": sd.max, "and": sd.And, "or": sd.Or}[op](a, b2)
+        elif kind == "un":
+            f = {"neg": lambda z: -z, "abs": sd.abs, "sqrt": sd.sqrt, "exp": sd.exp, "not": sd.Not}[op](e)
+        elif kind == "un-twice":
+            f = -(-e)
+        elif kind == "if-cond":
+            f = sd.If(e, other, 1.0)
+        else:
+            f = sd.round(e, 1)
+        y = bench.m.converter("y")
+        try:
+            y.equation = f
+            y(2)
+        except Exception:
+            pass
+        bench.x.equation = e
+        v = bench.x(2)
+    except Exception as ex:
+        bench.fresh()
+        return "rejected", type(ex).__name__
+    if not core.close(v, want, rel=1e-9, ab=1e-9):
+        fs = bench.x.function_string
+        bench.fresh()
+        return "VIOL", {"context": "operand-object-reused-in-%s%s" % (how[0], "" if how[1] is None else ":" + how[1]), "t": 2, "got": repr(v), "want": repr(want),
+                        "function_string": fs, "binding": bench.b}
+    return "ok", None
+
+
+def _work_shared(arg):
+    seed, cases = arg
+    bench = _get_benches(seed)[0]
+    out = []
+    for inner, how in cases:
+        try:
+            out.append(eval_shared(bench, inner, how))
+        except RecursionError:
+            bench.fresh()
+            out.append(("rejected", "RecursionError"))
+    return out
+
+
 def _work(arg):
     seed, trees = arg
     benches = _get_benches(seed)
@@ -373,7 +464,18 @@ def run(ctx):
             if i % 4001 == 0 and len(samples) < 8:
                 samples.append({"tree": skeleton(tree), "outcomes": [s for s, _ in sts]})
             i += 1
+    # operands are not changed by building larger expressions on the same objects
+    sc = shared_operand_cases()
+    sparts = core.chunks(sc, core.nworkers() * 2)
+    sres = core.pmap(_work_shared, [(ctx.seed, p_) for p_ in sparts])
+    shared_counts = {"ok": 0, "rejected": 0, "undefined": 0, "VIOL": 0}
+    for part, res in zip(sparts, sres):
+        for (inner, how), (st, detail) in zip(part, res):
+            shared_counts[st] += 1
+            if st == "VIOL":
+                ctx.violation("C02/value/%s/%s" % (detail["context"], skeleton(inner)), {"shared": [inner, list(how)], "binding": detail["binding"]}, detail)
     ctx.finish({
+        "shared_operand_cases": shared_counts,
         "evaluations": sum(counts.values()),
         "distinct_nontrivial": nontrivial,
         "rule": "all expression trees of depth 1 (every operator x every leaf kind in every position), depth 2 "
@@ -392,6 +494,10 @@ def run(ctx):
 
 
 def replay(case):
+    if "shared" in case:
+        bench = Bench(case["binding"])
+        st, detail = eval_shared(bench, case["shared"][0], tuple(case["shared"][1]))
+        return detail if st == "VIOL" else None
     bench = Bench(case["binding"])
     st, detail = eval_tree(bench, case["tree"])
     return detail if st == "VIOL" else None
